@@ -15,7 +15,8 @@ Section GenericSSize.
     - inv_ret Hc. szsolve.
     - destruct (nx s) as [[o1 s1] ev1] eqn:E. destruct (Hsz _ _ _ _ E) as [Hd Hno].
       destruct o1 as [x| | | |]; try (inv_ret Hc; szsolve; fail).
-      destruct (fails_now fl calls); [inv_ret Hc; szsolve|].
+      destruct (fails_now fl calls);
+        [unfold fail_res in Hc; destruct (fail_panic fl); inv_ret Hc; szsolve|].
       destruct (pred_eval keep x); [inv_ret Hc; szsolve|].
       destruct (sfilter nx n keep fl (S calls) s1) as [[o2 [c2 s2]] ev2] eqn:E2.
       simpl in Hc. inv_ret Hc. destruct (IH _ _ _ _ _ _ E2) as [Hd2 Hno2].
@@ -40,7 +41,8 @@ Section GenericSSize.
   Proof.
     unfold smap. destruct (nx s) as [[o1 s1] ev1] eqn:E. destruct (Hsz _ _ _ _ E) as [Hd Hno].
     intros Hc. destruct o1 as [x| | | |]; try (inv_ret Hc; szsolve; fail).
-    destruct (fails_now fl calls); inv_ret Hc; szsolve.
+    destruct (fails_now fl calls); [unfold fail_res in Hc; destruct (fail_panic fl)|];
+      inv_ret Hc; szsolve.
   Qed.
 
   Lemma swhile_sz f fl calls item has done s o calls' item' has' done' s' ev :
@@ -55,11 +57,13 @@ Section GenericSSize.
     unfold swhile. destruct done.
     - intros Hc. inv_ret Hc. szsolve.
     - destruct has.
-      + destruct (fails_now fl calls); [intros Hc; inv_ret Hc; szsolve|].
+      + destruct (fails_now fl calls);
+          [unfold fail_res; destruct (fail_panic fl); intros Hc; inv_ret Hc; szsolve|].
         destruct (pred_eval f item); intros Hc; inv_ret Hc; szsolve.
       + destruct (nx s) as [[o1 s1] ev1] eqn:E. destruct (Hsz _ _ _ _ E) as [Hd Hno].
         destruct o1 as [x| | | |]; try (intros Hc; inv_ret Hc; szsolve; fail).
-        destruct (fails_now fl calls); [intros Hc; inv_ret Hc; szsolve|].
+        destruct (fails_now fl calls);
+          [unfold fail_res; destruct (fail_panic fl); intros Hc; inv_ret Hc; szsolve|].
         destruct (pred_eval f x); intros Hc; inv_ret Hc; szsolve.
   Qed.
 
